@@ -199,6 +199,10 @@ class SimTor:
             return ['%s' % real]
         return ['%s=%s' % (real, v) for v in vals]
 
+    def is_linelist(self, real):
+        t = getattr(self, 'logical_types', {}).get(real) or self.types.get(real)
+        return t in (None, 'LineList', 'PortLines', 'Dependent', 'Dependant', 'Virtual')
+
     def real_name(self, name):
         for k in list(self.types) + list(self.store):
             if k.lower() == name.lower():
@@ -223,7 +227,10 @@ class SimTor:
             real = self.real_name(k)
             new.setdefault(real, [])
             if v not in (None, ''):
-                new[real].append(v)
+                if self.is_linelist(real):
+                    new[real].append(v)
+                else:
+                    new[real] = [v]         # not a line list: the last occurrence wins
         for k, vs in new.items():
             self.store[k] = vs
         return sorted(new)
